@@ -11,7 +11,7 @@ from symnp import core, loader, funcs, stubs
 from symnp.core import SVal, SInt, SFloat, ite, sand, sor, snot
 from symnp.arr import SArr, _raw
 from harness.common import PathOut, ev
-from harness.cluster import Metric, conj, cells, run_oracle, scale_of, concrete_metric, sel
+from harness.cluster import order_preserved, UNFAITHFUL, Metric, conj, cells, run_oracle, scale_of, concrete_metric, sel
 
 META = {
     'files': ['enspara/cluster/kcenters.py', 'enspara/cluster/kmedoids.py', 'enspara/mpi/ops.py', 'enspara/mpi/__init__.py',
@@ -116,6 +116,8 @@ def kcenters_mpi_job(lengths, W, k, mode='both'):
             cut = ev(model, cutoff) if isinstance(cutoff, SVal) else None
             sc = scale_of([x for row in T for x in row] + ([cut] if cut is not None else []))
             metric, Mx = concrete_metric(T, sc)
+            if not order_preserved(T, Mx):
+                return dict(UNFAITHFUL, inputs={'D': [[float(x) for x in row] for row in T]})
             kw2 = {}
             if 'dist_cutoff' in kw:
                 kw2['dist_cutoff'] = float(cut * sc)
@@ -156,7 +158,7 @@ def kcenters_mpi_job(lengths, W, k, mode='both'):
     return path
 
 
-def hybrid_mpi_job(lengths, W, k, sweeps=1):
+def hybrid_mpi_job(lengths, W, k, sweeps=1, scenario=None):
     """distributed k-hybrid (k-centers + PAM sweeps with (rank, index) medoids): the reassembled state satisfies the
     serial invariants (C01 oracle) and the cost does not exceed the k-centers cost"""
     lengths = list(lengths)
@@ -169,6 +171,16 @@ def hybrid_mpi_job(lengths, W, k, sweeps=1):
         own, ids = stripes(lengths, W)
         glen = np.array(lengths)
         rs = stubs.SymRandom()
+        if scenario == 'rank-without-members':
+            # sub-case of lengths (3, 2) on two ranks, k = 2: k-centers picks frames 0 and 1 (both on rank 0), frame 2 joins
+            # cluster 1 and rank 1's frames 3, 4 join cluster 0 - so rank 1 owns NO frame of cluster 1, whose medoid can move to
+            # frame 2.  Fixing this much of the metric's order keeps the job to minutes; the distances stay symbolic.
+            z = lambda a, b: core.to_z3_real(M.d(a, b))
+            for j in range(2, N):
+                ctx.add(z(0, 1) > z(0, j))
+            ctx.add(z(2, 1) < z(2, 0))
+            ctx.add(z(3, 0) < z(3, 1))
+            ctx.add(z(4, 0) < z(4, 1))
 
         def rank_main(r):
             Xl = SArr.from_typed(np.array(ids[r], dtype=int).reshape(-1, 1))
@@ -191,6 +203,8 @@ def hybrid_mpi_job(lengths, W, k, sweeps=1):
             T = M.table(model)
             sc = scale_of([x for row in T for x in row])
             metric, Mx = concrete_metric(T, sc)
+            if not order_preserved(T, Mx):
+                return dict(UNFAITHFUL, inputs={'D': [[float(x) for x in row] for row in T]})
             dv = [int(ev(model, v)) for v in draws]
             out = {'inputs': {'lengths': lengths, 'world_size': W, 'n_clusters': k, 'D': [[float(x) for x in row] for row in T],
                               'random_draws': dv}, 'skip_compare': True, 'out': None}
@@ -494,9 +508,11 @@ def jobs(tier):
         add('convert_job', 'convert[%s,W=%d]' % (list(lv), W), lengths=lv, W=W)
     # (3, 2) on two ranks: the smallest layout in which a rank can own NO frame of a cluster whose medoid moves
     for lv, W, k in (((2, 1), 2, 2), ((2, 2), 2, 2), ((1, 2, 1), 2, 2), ((3, 2), 2, 2)) + (() if q else (((2, 1, 1), 3, 2), ((2, 2), 2, 3), ((2, 3), 2, 2), ((3, 1, 1), 3, 2))):
-        add('hybrid_mpi_job', 'hybrid-mpi[%s,W=%d,k=%d]' % (list(lv), W, k), lengths=lv, W=W, k=k)
         if sum(lv) >= 5 and q:
-            J[-1]['deadline_s'] = 900        # the one long job of the quick tier (2-5 minutes)
+            add('hybrid_mpi_job', 'hybrid-mpi[%s,W=%d,k=%d,a rank without members of the moving cluster]' % (list(lv), W, k), lengths=lv, W=W, k=k,
+                scenario='rank-without-members')
+        else:
+            add('hybrid_mpi_job', 'hybrid-mpi[%s,W=%d,k=%d]' % (list(lv), W, k), lengths=lv, W=W, k=k)
     for W, ll in ((1, (3,)), (2, (2, 1)), (2, (1, 3)), (3, (1, 2, 1)), (3, (2, 2, 2))):
         for what in ('max', 'mean', 'randind'):
             add('ops_job', 'ops.%s[W=%d,%s]' % (what, W, list(ll)), W=W, local_lens=ll, what=what)
